@@ -21,6 +21,7 @@ def register(db):
     P = ["C07"]
     register_rename_by_preference(db)
     register_safe_name(db)
+    register_escape_string(db)
     db.add(Contract(
         f"{T}:classify", params={"character": one_char},
         ensures=[("upper", "(result == 1) == ('A' <= character and character <= 'Z')"),
@@ -120,4 +121,25 @@ def register_safe_name(db):
         note="assumed: text.is_reserved (membership in the stop-word set) is a function of the string; name_case is an "
              "arbitrary function str -> str; the pass-through clause is stated for ASCII names (the engine reads \\d as [0-9], "
              "Python also matches other Unicode decimal digits)",
+    ))
+
+
+def register_escape_string(db):
+    """text.escape_string (string literals of generated modules), one character at a time: a backslash, a double quote and
+    every control character is replaced by its entry of the escape table; every other character is emitted as it is."""
+    import z3
+    from pyvc.contracts import Contract, pure_result
+    from pyvc.values import Opaque, z3sort
+    db.const_overrides[("xsdata.utils.text", "ESCAPE_DCT")] = Opaque("EscapeTable", z3.Const("text_ESCAPE_DCT", z3sort(("u", "EscapeTable"))))
+    db.opaque_ops[("EscapeTable", "getitem")] = lambda ex, st, v, key: iter([(st, pure_result(ex, st, "ESCAPE_DCT", "str", [key]))])
+    SPECIAL = "value == chr(92) or value == chr(34) or value < ' '"
+    db.add(Contract(
+        f"{T}:escape_string", variant="single-character", params={"value": "str"},
+        requires=["len(value) == 1"],
+        ensures=[("backslash-quote-and-control-characters-are-replaced-by-their-table-entry",
+                  f"implies({SPECIAL}, result == uf('ESCAPE_DCT', 'str', value))"),
+                 ("every-other-character-is-kept", f"implies(not ({SPECIAL}), result == value)")],
+        raises={}, returns="str", properties=["C07"],
+        note="the table ESCAPE_DCT (built by a module-level loop) is an abstract str -> str map; re.sub over a longer text "
+             "is character-wise (trusted fact about a character-class pattern)",
     ))
